@@ -17,7 +17,7 @@ const char *vf_rule =
 	"base = serial or parallel transmission of 1-3 magazines x 1-2 pages (subcodes 0, 01-79, clock style 0x1234, C5/C6 sometimes) over 2-3 cycles "
 	"with and without erase, rows from the C02 grammar, X/26 with character replacing triplets, X/27/0 and X/27/4, X/28/0, M/29/0, 8/30 format 1 "
 	"and 2; faults per base: EVERY single bit of every Hamming 8/4 byte and 24/18 triplet (exhaustive), every in-byte double error of the packet "
-	"address and designation bytes of every packet and of all eight header bytes (28 pairs per byte), a parity error in every text row (one to all 40 "
+	"address and designation bytes of every packet and of all eight header bytes (28 pairs per byte), two bit errors in every triplet of every X/26 packet (sampled pairs), a parity error in every text row (one to all 40 "
 	"positions in turn), and sampled multi-byte bursts with dropped packets. Non-trivial: the base contains an enhancement or service packet and a "
 	"retransmission without erase; every fault run changes a byte the decoder consumes (counted per class in the histogram).";
 
@@ -76,7 +76,7 @@ struct Snap {
 };
 
 static void ser_page(std::string &o, const vbi_page &pg) {
-	puti(o, pg.pgno); puti(o, pg.subno); puti(o, pg.rows); puti(o, pg.columns);
+	{ int32_t h[4] = { pg.pgno, pg.subno, pg.rows, pg.columns }; put(o, h, 16); }	// fixed width, so that first_page_diff can name the cell
 	for (int i = 0; i < pg.rows * pg.columns; ++i) {
 		const vbi_char &c = pg.text[i];
 		unsigned a = c.underline | c.bold << 1 | c.italic << 2 | c.flash << 3 | c.conceal << 4 | c.proportional << 5 | c.link << 6;
@@ -130,14 +130,21 @@ static void run_tx(const std::vector<Pkt> &tx, const std::vector<char> *drop, in
 }
 
 static std::string first_page_diff(const Snap &a, const Snap &b) {
-	char buf[200];
+	char buf[500];
 	size_t i = 0, j = 0;
 	while (i < a.pages.size() || j < b.pages.size()) {
 		if (j >= b.pages.size() || (i < a.pages.size() && a.pages[i].first < b.pages[j].first)) { snprintf(buf, sizeof buf, "page %x.%x only cached in the fault run", a.pages[i].first >> 16, a.pages[i].first & 0xFFFF); return buf; }
 		if (i >= a.pages.size() || b.pages[j].first < a.pages[i].first) { snprintf(buf, sizeof buf, "page %x.%x missing in the fault run", b.pages[j].first >> 16, b.pages[j].first & 0xFFFF); return buf; }
 		if (a.pages[i].second != b.pages[j].second) {
 			size_t k = 0; while (k < a.pages[i].second.size() && k < b.pages[j].second.size() && a.pages[i].second[k] == b.pages[j].second[k]) ++k;
-			snprintf(buf, sizeof buf, "page %x.%x fetched differently (first difference at serialized byte %zu; cell records are 8 bytes starting near byte 20, 41 x 25 cells per level)", a.pages[i].first >> 16, a.pages[i].first & 0xFFFF, k);
+			int32_t h[4] = {0, 0, 25, 41}; if (a.pages[i].second.size() >= 16) memcpy(h, a.pages[i].second.data(), 16);
+			size_t cells = (size_t) h[2] * (size_t) h[3] * 8;
+			if (k >= 16 && k < 16 + cells && a.pages[i].second.size() >= 16 + cells && b.pages[j].second.size() >= 16 + cells) {
+				size_t c = (k - 16) / 8; const uint8_t *x = (const uint8_t *) a.pages[i].second.data() + 16 + c * 8, *y = (const uint8_t *) b.pages[j].second.data() + 16 + c * 8;
+				snprintf(buf, sizeof buf, "page %x.%x fetched differently at level 1.5, row %zu column %zu: fault run U+%04X attr %02x size %u opacity %u fg %u bg %u / reference U+%04X attr %02x size %u opacity %u fg %u bg %u", a.pages[i].first >> 16, a.pages[i].first & 0xFFFF, c / (size_t) h[3], c % (size_t) h[3],
+					x[6] | x[7] << 8, x[0], x[1], x[2], x[3], x[4], y[6] | y[7] << 8, y[0], y[1], y[2], y[3], y[4]);
+			} else
+			snprintf(buf, sizeof buf, "page %x.%x fetched differently (first difference at serialized byte %zu; per level: 16 byte header, %d x %d cell records of 8 bytes, then page attributes)", a.pages[i].first >> 16, a.pages[i].first & 0xFFFF, k, h[2], h[3]);
 			return buf;
 		}
 		++i; ++j;
@@ -365,6 +372,56 @@ int vf_run_case(Src &s, Report &r) {
 		}
 	}
 	dropped_ref.clear();
+
+	// ---------- class 2b: uncorrectable triplet inside an X/26 packet: the enhancement data is cut or dropped, never re-aligned ----------
+	// Enhancement triplets are position dependent (column triplets apply to the row the last row address triplet selected), so a
+	// receiver that merely leaves the damaged triplet out shows the following characters in a row they were not sent for. Accepted
+	// outcomes: the fault-free pages (the triplet lies behind a termination marker), the packet cut at the damaged triplet and the
+	// later X/26 packets of this transmission of the page ignored (what follows the cut is empty, or keeps the content of the previous
+	// transmission when the page was not erased), the whole packet ignored with or without the later ones, or the
+	// page abandoned.
+	for (int i = 0; i < n; ++i) {
+		if (txv[i].kind != K_X26) continue;
+		std::vector<char> later(n, 0);	// later X/26 packets of the same transmission of the page
+		{ int h = -1; for (int j = i; j >= 0; --j) if (txv[j].kind == K_HDR && txv[j].pi == txv[i].pi) { h = j; break; }
+		  int e = h >= 0 ? txv[h].span_end : n;
+		  for (int j = i + 1; j < e; ++j) if (txv[j].kind == K_X26 && txv[j].pi == txv[i].pi && txv[j].cyc == txv[i].cyc) later[j] = 1; }
+		Snap dropOnly, dropLater, abandoned; bool haveD = false;
+		for (int q = 0; q < 13; ++q) {
+			unsigned reps = (runs > budget * 9 / 10) ? 1 : 2;
+			for (unsigned rep = 0; rep < reps; ++rep) {
+				unsigned x1 = s.pick(24), x2 = s.pick(23); if (x2 >= x1) ++x2;
+				memcpy(fb, txv[i].b, 42);
+				fb[3 + 3 * q + x1 / 8] ^= 1 << (x1 & 7); fb[3 + 3 * q + x2 / 8] ^= 1 << (x2 & 7);
+				run_tx(txv, nullptr, i, fb, got); ++runs;
+				r.cls("faults:double-bit-X/26-triplet");
+				if (same_pages(got, ref)) continue;
+				r.cls("faults:double-bit-X/26-triplet-with-effect");
+				// cut at q
+				uint8_t cut[42]; memcpy(cut, txv[i].b, 42);
+				for (int k = q; k < 13; ++k) enc::ham24(cut + 3 + 3 * k, 0x3Fu | (0x1Fu << 6) | (0x7Fu << 11));
+				std::fill(drop.begin(), drop.end(), 0); for (int j = 0; j < n; ++j) if (later[j]) drop[j] = 1;
+				run_tx(txv, &drop, i, cut, cand);
+				if (same_pages(got, cand)) continue;
+				// cut at q, the rest of the enhancement data keeps its earlier content (the page was not erased): the triplets of the
+				// previous transmission of this designation
+				{ int prev = -1; for (int j = i - 1; j >= 0; --j) if (txv[j].kind == K_X26 && txv[j].pi == txv[i].pi && txv[j].b[2] == txv[i].b[2]) { prev = j; break; }
+				  if (prev >= 0) { memcpy(cut + 3 + 3 * q, txv[prev].b + 3 + 3 * q, (size_t) (13 - q) * 3); run_tx(txv, &drop, i, cut, cand); if (same_pages(got, cand)) { r.cls("faults:double-bit-X/26-triplet-earlier-content-kept"); continue; } } }
+				if (!haveD) {
+					std::fill(drop.begin(), drop.end(), 0); drop[i] = 1; run_tx(txv, &drop, -1, nullptr, dropOnly);
+					for (int j = 0; j < n; ++j) if (later[j]) drop[j] = 1; run_tx(txv, &drop, -1, nullptr, dropLater);
+					std::fill(drop.begin(), drop.end(), 0);
+					{ int h = -1; for (int j = i; j >= 0; --j) if (txv[j].kind == K_HDR && txv[j].pi == txv[i].pi) { h = j; break; }
+					  if (h >= 0) for (int j = h; j < txv[h].span_end; ++j) if (!txv[j].exempt && txv[j].mag == txv[h].mag) drop[j] = 1; }
+					run_tx(txv, &drop, -1, nullptr, abandoned);
+					haveD = true;
+				}
+				if (same_pages(got, dropOnly) || same_pages(got, dropLater) || same_pages(got, abandoned)) continue;
+				return r.fail("C03:uncorrectable-X/26-triplet-shown-as-data", "two bit errors in triplet %d (bits %u and %u): %s: the fetched pages equal neither the fault-free run, nor the run with the enhancement data cut at this triplet, nor a run without this packet (with or without the later X/26 packets), nor a run without this transmission of the page; against the cut packet: %s; against the run without this and the later X/26 packets: %s",
+					q, x1, x2, describe(i, fb).c_str(), first_page_diff(got, cand).c_str(), first_page_diff(got, dropLater).c_str());
+			}
+		}
+	}
 
 	// ---------- class 3: uncorrectable header byte: only pages in progress may be abandoned ----------
 	for (int i = 0; i < n; ++i) {
